@@ -3,9 +3,16 @@
     observed on the real code are compared with the model, and checked directly:
     Less is a strict total order on the Keys of each projection (irreflexive,
     antisymmetric, transitive over all triples, total), every SortKeys result is a
-    Less-sorted permutation of its input, and equal key sets sort equally. *)
+    Less-sorted permutation of its input, and equal key sets sort equally; and
+    every entry of the Less matrix is what the expression of the deciding field
+    says (declarative per-field specifications, [pair_ok]).
+
+    The model is that of the code with the two repairs proposed for C09
+    (Model/SortR.v): a leading sign belongs to the numeral of a suffixed
+    number, and the missing value "" of a late .config sub-field ranks by its
+    first observation. On the unrepaired code both show as VIOLATION. *)
 From Perf Require Import Base.Bytes Base.Sx Base.B64 Base.SxF Model.Name Model.Extract Model.Key
-  Model.Projection Model.Sort Corr.RunC08.
+  Model.Projection Model.ProjectionTx Model.Sort Model.SortR Corr.RunC08.
 
 (** ** oracle tables *)
 Record oracle := mkO { o_pf : list (bytes * option b64); o_pow : list (Z * Z * b64) }.
@@ -37,22 +44,63 @@ Fixpoint pw_lookup (t : list (Z * Z * b64)) (b e : Z) : option b64 :=
   | (b', e', v) :: t' => if (b =? b')%Z && (e =? e')%Z then Some v else pw_lookup t' b e
   end.
 
+(** strconv.ParseFloat on a sign followed by a run of [0-9.]: the harness
+    records the verdict on every value and on every maximal run of [0-9.] in it,
+    not on sign + run; that one is derived: the same verdict, negated for '-'
+    (ParseFloat reads the sign first and applies it to the correctly rounded
+    magnitude; rounding to nearest even is symmetric). [sign_sym_ok] re-checks
+    this on every table entry of the shape sign + run whose run is in the table
+    too ("-1" next to "1", "-0", "+1", ... occur in most cases). *)
+Definition signed_run (x : bytes) : option (byte * bytes) :=
+  match x with
+  | s :: ((_ :: _) as m) => if is_sign s && forallb is_numch m then Some (s, m) else None
+  | _ => None
+  end.
+Definition apply_sign (s : byte) (v : b64) : b64 := if Byte.eqb s c_minus then b64_neg v else v.
+
+Definition pf_derived (o : oracle) (x : bytes) : option (option b64) :=
+  match signed_run x with
+  | Some (s, m) => match pf_lookup (o_pf o) m with
+                   | Some v => Some (option_map (apply_sign s) v)
+                   | None => None
+                   end
+  | None => None
+  end.
+
+Definition pf_ext (o : oracle) (x : bytes) : option (option b64) :=
+  match pf_lookup (o_pf o) x with
+  | Some v => Some v
+  | None => pf_derived o x
+  end.
+
 Definition o_parse_float (o : oracle) (x : bytes) : option b64 :=
-  match pf_lookup (o_pf o) x with Some v => v | None => None end.
+  match pf_ext o x with Some v => v | None => None end.
+Definition pf_known (o : oracle) (x : bytes) : bool :=
+  match pf_ext o x with Some _ => true | None => false end.
 Definition o_powf (o : oracle) (iec : bool) (e : nat) : b64 :=
   match pw_lookup (o_pow o) (if iec then 1024 else 1000)%Z (Z.of_nat e) with
   | Some v => v | None => S754_nan end.
 
-(** every ParseFloat argument the model needs on value [v] is in the table
+Definition opt_same (a b : option b64) : bool :=
+  match a, b with
+  | Some x, Some y => b64_same x y
+  | None, None => true
+  | _, _ => false
+  end.
+
+Definition sign_sym_ok (o : oracle) : bool :=
+  forallb (fun '(x, v) => match pf_derived o x with Some d => opt_same v d | None => true end) (o_pf o).
+
+(** every ParseFloat argument the model needs on value [v] is known
     (otherwise the model would be guessing: OracleMiss) *)
 Definition asked_ok (o : oracle) (v : bytes) : bool :=
   match pf_lookup (o_pf o) v with
   | None => false
   | Some (Some _) => true
   | Some None =>
-      match num_match v with
+      match num_match_r v with
       | None => true
-      | Some (run, _) => match pf_lookup (o_pf o) run with Some _ => true | None => false end
+      | Some (m, _) => pf_known o m
       end
   end.
 
@@ -69,13 +117,15 @@ Definition oracle_covers (o : oracle) (p : projection) : bool :=
 Definition proj_corr9 (o : oracle) (p : projection) (ob : pobs) : bool :=
   let n := length (p_keys p) in
   let ks := seq 0 n in
-  let lt := key_less (o_parse_float o) (o_powf o) p in
+  let lt := key_less_r (o_parse_float o) (o_powf o) p in
   oracle_covers o p
   && list_eqb (list_eqb Bool.eqb) (map (fun a => map (fun b => lt a b) ks) ks) (po_less ob)
   && forallb (fun '(inp, out) => nat_list_eqb (sort_by lt inp) out) (po_sorts ob).
 
+(** the model run is that of RunC08.run_corr: the repaired Parse
+    (Model/ProjectionTx.v; identical to [run_ops] when no Parse call fails) *)
 Definition run_corr9 (o : oracle) (ops : list op) (obs : list pobs) : bool :=
-  let '(w, _) := run_ops new_world ops in
+  let '(w, _) := run_ops_tx new_world ops in
   forallb2 (proj_corr9 o) (w_projs w) obs.
 
 Definition case_oracle (c : case) : option oracle :=
@@ -121,7 +171,7 @@ Fixpoint dedup_f (l : list b64) : list b64 :=
   end.
 
 Definition num_values (o : oracle) : list b64 :=
-  dedup_f (flat_map (fun '(x, _) => match parse_num (o_parse_float o) (o_powf o) x with
+  dedup_f (flat_map (fun '(x, _) => match parse_num_r (o_parse_float o) (o_powf o) x with
                                     | Some v => [v] | None => [] end) (o_pf o)).
 
 Definition float_order_ok (vs : list b64) : bool :=
@@ -145,7 +195,7 @@ Definition corr_ok (c : case) : bool :=
   match case_oracle c with
   | None => false
   | Some o =>
-      float_order_ok (num_values o) && pow_table_ok o &&
+      float_order_ok (num_values o) && pow_table_ok o && sign_sym_ok o &&
       match c with
       | CFree ops _ obs _ => run_corr9 o ops obs
       | CProto ex st runs _ => forallb (fun r => run_corr9 o (proto_ops ex st (pr_perm r)) (pr_obs r)) runs
@@ -159,14 +209,22 @@ Definition obs_ok (ob : pobs) : bool :=
 
     For every pair of Keys, the first flattened field on which they differ
     decides; what that field must say is given by its expression:
-    - num: [Model.Sort.num_before] — the declarative specification (value
-      denoted by each string via the ParseFloat table and EXACT powers, numbers
-      before non-numbers, NaN last among numbers, ties by string order);
+    - num: [Model.SortR.num_before_r] - the declarative specification (value
+      denoted by each string via the ParseFloat table and EXACT powers, a
+      leading sign belonging to the numeral: "-1k" is -1000; numbers before
+      non-numbers, NaN last among numbers, ties by string order);
     - alpha: string order;
     - first (top-level or sub-field of .config, .unit, residue): Keys are numbered
-      in interning order, so of two non-empty values the one whose first Key has
+      in interning order; of two values - the missing value "" of a Key that
+      lacks the field is a value like any other - the one whose first Key has
       the smaller number sorts first;
-    - fixed: words listed exactly once compare by their positions. *)
+    - fixed: "the listed order": when every listing of one word precedes every
+      listing of the other ([Model.SortR.listed_before]; for words listed once:
+      their positions) that word sorts first. Two words whose listings
+      interleave (a b a) are not ordered by the statement, and a word that is
+      not listed cannot occur behind the filter that key@(...) installs (the
+      harness projects without filtering): for those only the strict total
+      order over all triples is demanded. *)
 
 (** the parsed fields each projection was built from; [None] = a residue *)
 Fixpoint proj_specs (ops : list op) (outs : list (list Z)) : list (option (bool * list pspec)) :=
@@ -202,19 +260,15 @@ Fixpoint first_diff (a b : list bytes) (j : nat) : option (nat * bytes * bytes) 
   | _, _ => None
   end.
 
-Definition count_b (v : bytes) (l : list bytes) : nat := length (filter (beq v) l).
-Fixpoint pos_b (v : bytes) (l : list bytes) (i : nat) : nat :=
-  match l with [] => i | x :: l' => if beq x v then i else pos_b v l' (S i) end.
-
-(** the specification can be evaluated on [v]: ParseFloat's verdicts are recorded *)
+(** the specification can be evaluated on [v]: ParseFloat's verdicts are known *)
 Definition spec_evaluable (o : oracle) (v : bytes) : bool :=
   match pf_lookup (o_pf o) v with
   | None => false
   | Some (Some _) => true
   | Some None =>
-      match take_while is_numch (drop_while (fun c => negb (is_numch c)) v) with
+      match fst (numeral_of v) with
       | [] => true
-      | run => match pf_lookup (o_pf o) run with Some _ => true | None => false end
+      | m => pf_known o m
       end
   end.
 
@@ -228,16 +282,14 @@ Definition pair_ok (o : oracle) (flags : list pspec) (ob : pobs) (i j : nat) (ka
           let got := mat (po_less ob) i j in
           if beq (ps_order s) (bs "num") then
             if spec_evaluable o va && spec_evaluable o vb
-            then Bool.eqb got (num_before (o_parse_float o) va vb) else true
+            then Bool.eqb got (num_before_r (o_parse_float o) va vb) else false
           else if beq (ps_order s) (bs "alpha") then Bool.eqb got (bltb va vb)
           else if beq (ps_order s) (bs "first") then
-            if negb (is_nil va) && negb (is_nil vb)
-            then Bool.eqb got (Nat.ltb (first_key_with pos va (po_keys ob) 0)
-                                       (first_key_with pos vb (po_keys ob) 0))
-            else true
+            Bool.eqb got (Nat.ltb (first_key_with pos va (po_keys ob) 0)
+                                  (first_key_with pos vb (po_keys ob) 0))
           else if beq (ps_order s) (bs "fixed") then
-            if Nat.eqb (count_b va (ps_fixed s)) 1 && Nat.eqb (count_b vb (ps_fixed s)) 1
-            then Bool.eqb got (Nat.ltb (pos_b va (ps_fixed s) 0) (pos_b vb (ps_fixed s) 0))
+            if listed_before (ps_fixed s) va vb then got
+            else if listed_before (ps_fixed s) vb va then negb got
             else true
           else true
       end
